@@ -320,7 +320,24 @@ func (P *Prog) checkDecodeFailure(r *Result) {
 				if !isNilConst(prov) {
 					problems = append(problems, "a failing decode still returns a provider at "+P.ipos(in))
 				}
-				al, ok := cv(iss).(*ssa.Alloc)
+				issv := cv(iss)
+				// the issue may be built by a helper (`invalidJSON(err)`): the literal it returns
+				if hc, isCall := issv.(*ssa.Call); isCall {
+					if callee := callOf(hc).static; callee != nil && callee.Blocks != nil && inModule(funcPkgPath(callee)) {
+						var ret ssa.Value
+						nRet := 0
+						eachInstr(callee, func(_ *ssa.BasicBlock, _ int, in2 ssa.Instruction) {
+							if rt2, ok := in2.(*ssa.Return); ok && len(rt2.Results) == 1 {
+								nRet++
+								ret = cv(rt2.Results[0])
+							}
+						})
+						if nRet == 1 && ret != nil {
+							issv = ret
+						}
+					}
+				}
+				al, ok := issv.(*ssa.Alloc)
 				code := ""
 				if ok && al.Referrers() != nil {
 					for _, rf := range *al.Referrers() {
